@@ -692,6 +692,29 @@ func c03DeepRecursion(c *drv.Ctx) {
 		cs.C.Obs("deep-recursion cases", 1)
 	})
 
+	// (7b) TTHeader frames that declare up to 255 transform ids and are long enough to hold them (the encoder never
+	// writes any): decoded or refused, not a panic
+	c.Stage("ttheader-transform-ids", 16*3, true, func(cs *drv.Case) {
+		count := 0xf0 + int(cs.Idx%16)
+		infoLen := []int{256, 260, 400}[cs.Idx/16]
+		info := make([]byte, infoLen)
+		info[0] = 0 // protocol id: thrift binary
+		info[1] = byte(count)
+		for i := 2; i < infoLen && i < 2+count; i++ {
+			info[i] = byte(cs.R.Intn(4))
+		}
+		frame := ref.U32(nil, uint32(10+infoLen+5))
+		frame = append(frame, 0x10, 0x00, 0x00, 0x00)
+		frame = ref.U32(frame, 7)
+		frame = ref.U16(frame, uint16(infoLen/4))
+		frame = append(frame, info...)
+		frame = append(frame, 1, 2, 3, 4, 5)
+		cs.Desc = M{"transform_count_byte": count, "header_info_len": infoLen}
+		c03Run(cs, frame, nil, 1<<20)
+		cs.Count(true, "tthtransforms", cs.Idx)
+		cs.C.Obs("frames declaring 240..255 transform ids", 1)
+	})
+
 	// (8) wide instead of deep: millions of siblings at one level take no more stack than one of them
 	c.Stage("wide-values", 3, true, func(cs *drv.Case) {
 		old := debug.SetMaxStack(32 << 20)
